@@ -1256,8 +1256,21 @@ def describe_place(body, place, depth=0):
                 base = describe_rvalue(body, d[3], depth + 1)
             elif d[0] == "call":
                 base = describe_call(body, d[2], depth + 1)
+    skip_first = False
     if base is None:
-        base = body.var_name(local) or ("arg%d" % local if 1 <= local <= body.argc else "_%d" % local)
+        base = body.var_name(local)
+        if base is None and projs:
+            # captured variables of closures / coroutines: use the debug name of the upvar
+            for k in range(len(projs), 0, -1):
+                for nme, vp in body.vars:
+                    if vp[0] == local and vp[1] == projs[:k] and any(isinstance(x, list) and x[0] == "f" for x in vp[1]):
+                        base = nme
+                        projs = projs[k:]
+                        break
+                if base is not None:
+                    break
+        if base is None:
+            base = "arg%d" % local if 1 <= local <= body.argc else "_%d" % local
     s = base
     for x in projs:
         if isinstance(x, list) and x[0] == "f":
